@@ -48,3 +48,15 @@ Theorem C03_rpc_never_ends_the_tunnel : forall strict ls s, rrun strict r_init l
   k_err (r_k s) = false /\ v_err (r_v s) = false.
 Proof. exact rpc_tunnel_survives. Qed.
 Print Assumptions C03_rpc_never_ends_the_tunnel.
+
+(* ---- many RPCs on one tunnel (MultiRpc.v): n instances of the per-RPC components on two shared
+   queues; every stream of every run is a run of Rpc.v, so RPCs are independent at the control level ---- *)
+From GT Require Import MultiRpc MultiRpcProofs.
+Theorem C03_every_stream_runs_as_if_alone : forall strict n ls m i,
+  mrun strict (m_init n) ls = Some m -> i < n -> exists ls', rrun strict r_init ls' = Some (proj_state i m).
+Proof. exact multi_rpc_refines. Qed.
+Print Assumptions C03_every_stream_runs_as_if_alone.
+Theorem C03_no_rpc_of_many_ends_the_tunnel : forall strict n ls m i,
+  mrun strict (m_init n) ls = Some m -> i < n -> k_err (p_k (get m i)) = false /\ v_err (p_v (get m i)) = false.
+Proof. exact multi_no_rpc_ends_the_tunnel. Qed.
+Print Assumptions C03_no_rpc_of_many_ends_the_tunnel.
